@@ -266,18 +266,21 @@ def expect_verb(verb, reply, tokens):
             sched = unhx(d["schedule"])
             sha, dha = ("", 54321), ("localhost", 54321)
             rxa, txa = unhx(d["rx"]), unhx(d["tx"])
-            if rxa:
-                if ":" in rxa:
-                    host, port = rxa.split(":")
-                    sha = (host, int(port))
-                else:
-                    sha = (rxa, sha[1])
-            if txa:
-                if ":" in txa:
-                    host, port = txa.split(":")
-                    dha = (host, int(port))
-                else:
-                    dha = (txa, dha[1])
+            try:
+                if rxa:
+                    if ":" in rxa:
+                        host, port = rxa.split(":")
+                        sha = (host, int(port))
+                    else:
+                        sha = (rxa, sha[1])
+                if txa:
+                    if ":" in txa:
+                        host, port = txa.split(":")
+                        dha = (host, int(port))
+                    else:
+                        dha = (txa, dha[1])
+            except ValueError:
+                return "ERR parse"        # not host:port with a numeric port (fix D66)
             kw = dict(period=0.0 if d["period"] == "~" else abs(pyval(d["period"])), schedule=G.ScheduleValues[sched],
                       sha=sha, dha=dha, prefix=unhx(d["prefix"]) + "/h")
             kw.update(dict(pydict(d["init"])))
@@ -365,7 +368,7 @@ def gen_case(rng, verb=None):
                 "via": gen_indirect(r, node=True)}
         if bad:
             k = r.choice(list(pool))
-            pool[k] = r.choice([["bogus"], ["a..b"], ["-x"], ["0x"]])
+            pool[k] = r.choice([["1j"], ["bogus"], ["a..b"], ["-x"], ["0x"]])
     elif verb == "frame":
         head = ["frame", name]
         pool = {"in": [r.choice(NAMES)], "via": gen_indirect(r, node=True)}
@@ -395,13 +398,13 @@ def gen_case(rng, verb=None):
         head = ["logger", name]
         pool = {"at": [r.choice(["0.5", "-1", "2", "1j", "x"])], "to": [r.choice(["/dev/shm/verif-log", "./logs"])],
                 "be": [r.choice(["active", "inactive", "slave", "aux"])], "in": [r.choice(["front", "mid", "back", "top"])],
-                "flush": [r.choice(["0.5", "10", "-3"])], "keep": [r.choice(["3", "2.7", "-1", "0x10", "x"])],
+                "flush": [r.choice(["0.5", "10", "-3"])], "keep": [r.choice(["3", "2.7", "-1", "0x10", "x", "nan", "inf", "1j"])],
                 "cycle": [r.choice(["60", "0", "-5.5"])], "size": [r.choice(["100", "0", "-4", "2.5"])], "reuse": []}
     elif verb == "server":
         head = ["server", name]
         pool = {"at": [r.choice(["0.5", "-1", "2"])], "to": [r.choice(["/dev/shm/verif-srv", "./srv"])],
                 "be": [r.choice(["active", "inactive", "slave"])], "in": [r.choice(["front", "mid", "back"])],
-                "rx": [r.choice([":5000", "localhost:5001", "host"])], "tx": [r.choice([":6000", "peer:6001", "peer"])],
+                "rx": [r.choice([":5000", "localhost:5001", "host", ":", "a:b:c"])], "tx": [r.choice([":6000", "peer:6001", "peer", ":x"])],
                 "per": gen_direct(r), "for": r.choice([[], ["a", "in"], ["a", "b", "in"]]) + [".srv.src"]}
     else:
         head = ["go", "me", "if", ".a.b", "is", r.choice(["updated", "changed"])]
